@@ -210,7 +210,12 @@ fn perform(st: &mut State, op: &Json, idx: usize) {
                         }
                     }
                 }
-                module.freeze()
+                // Heaps may be named; different heaps can legitimately carry equal names
+                // (e.g. a file evaluated again).
+                match op["heap_name"].as_str() {
+                    Some(n) => module.freeze_named(starlark::values::FrozenHeapName::user(n)),
+                    None => module.freeze(),
+                }
             });
             drop(loader);
             match fm {
@@ -540,7 +545,12 @@ impl World for C13 {
                 let (stmts, exports) = gen_module(&mut wl, feat, &format!("m{idx}_"), n, &loaded, false);
                 // Exporter modules do not need observations.
                 let stmts: Vec<String> = stmts.into_iter().filter(|s| !s.starts_with("emit(")).collect();
-                ops.push(json!({"op": "build", "thread": thread, "deps": deps, "stmts": stmts, "extra": wl.chance(1, 3)}));
+                let heap_name = match wl.below(4) {
+                    0 => json!("lib.star"),
+                    1 => json!(format!("pkg{}.star", wl.below(2))),
+                    _ => Json::Null,
+                };
+                ops.push(json!({"op": "build", "thread": thread, "deps": deps, "stmts": stmts, "extra": wl.chance(1, 3), "heap_name": heap_name}));
                 ents.push(G::Frozen(exports));
             } else if r < 32 {
                 let t = frozen[wl.usize(frozen.len())];
